@@ -107,6 +107,11 @@ def check_reader(cfg, w, rep, lf):
         rep.violation("b-undecodable:%s" % key, "bucket reader `%s` does not skip a line that is not valid UTF-8 (InvalidData) and continue" % short(lf.path),
                       loc=body.loc(), config=cfg, rule="b-skip-continue")
 
+    # ---- (b2) completeness: a line that decodes, has two fields, matches its checksum and parses IS collected. Inside the loop,
+    #      the only ways round without pushing are the rejections the format defines (undecodable line, field count, checksum,
+    #      JSON error — or the validating helper's None); any other `continue` silently drops valid records ----
+    _reader_complete(cfg, w, rep, lf, body, h, bl, ft, helper)
+
     # ---- (c) what is collected and returned is exactly the validated records ----
     pushes = [(b, blk, t) for b, blk, t in prog.call_sites(lf) if t.callee is not None and t.callee.path == "std::vec::Vec::<T, A>::push" and b is body]
     ok = False
@@ -340,3 +345,76 @@ def _line_source(cfg, w, rep, lf):
                       "bucket reader `%s` does not iterate the plain lines of its bucket file: %s — an adaptor between the file and the loop "
                       "can end the stream early or drop lines" % (short(lf.path), term_str(term)[:160]), loc=span_str(t.span), config=cfg,
                       rule="b-line-source")
+
+
+def _reader_complete(cfg, w, rep, lf, body, h, bl, ft, helper):
+    prog = w.prog
+    R = w.roles
+    key = fn_key(lf)
+    cf = prog.cfg(body)
+    pushes = [blk.i for blk, t in body.calls() if t.callee is not None and t.callee.path == "std::vec::Vec::<T, A>::push" and blk.i in bl]
+    if len(pushes) != 1:
+        return      # reported under (c)
+    push = pushes[0]
+    outside = set(cf.live()) - set(bl)
+
+    def reaches_push(v):
+        return push in cf.reachable(v, cut_nodes=outside | {h}) or v == push
+    allowed = set()
+    for b in bl:
+        tu = body.blocks[b].term
+        if tu.k != "switch" or tu.discr.place is None:
+            continue
+        ok_switch = False
+        for o in prog.resolve_pl(body, tu.discr.place, IDENT):
+            if o.kind == "discr":
+                pl = o.info.place
+                src = prog.resolve_lifted(body, pl.local, norm_path(pl), IDENT, at=b)
+                if src and all(x.kind == "call" and x.callee is not None and (
+                        NEXT.search(x.callee.path) or x.term is ft or
+                        (helper is not None and any(x.term is hc.term for hc in helper[1]))) for x in src):
+                    ok_switch = True
+            elif o.kind == "call" and o.callee is not None and o.callee.path in ("std::cmp::PartialEq::eq", "std::cmp::PartialEq::ne"):
+                sides = [prog.resolve_op(body, a, IDENT, o.blk) for a in o.term.args]
+                for side in sides:
+                    if side and all(x.kind == "call" and prog.callee_fn(x.term) is not None and
+                                    R.hash_fns.get(prog.callee_fn(x.term).path) == "sha256" for x in side):
+                        ok_switch = True
+                # the InvalidData test of an undecodable line
+                from ..symval import Sym
+                sym = getattr(prog, "_c06_sym", None) or Sym(prog)
+                prog._c06_sym = sym
+                txt = " ".join(term_str(sym.of_operand(body, a)) for a in o.term.args)
+                if "InvalidData" in txt and "std::io::Error::kind" in txt:
+                    ok_switch = True
+            elif o.kind == "binop" and o.info.j["op"] in ("Eq", "Ne", "Lt", "Ge"):
+                vals = [y for x in o.info.ops for y in prog.resolve_op(body, x, IDENT, o.blk)]
+                if any(y.kind == "const" and y.info.const_val in (1, 2) for y in vals) and (
+                        any(y.kind == "unop" and y.info.j["op"] == "PtrMetadata" for y in vals) or
+                        any(y.kind == "call" and y.callee is not None and y.callee.path.endswith("::len") for y in vals)):
+                    ok_switch = True      # the field-count test of the slice pattern
+        if ok_switch:
+            for v in cf.succ[b]:
+                if v in bl and not reaches_push(v):
+                    allowed.add((b, v))
+    back = [u for u in bl if h in cf.succ[u]]
+    reach = cf.reachable(h, cut_edges=allowed, cut_nodes=outside | {push})
+    skipped = [u for u in back if u in reach]
+    if skipped:
+        # find the offending branch: a switch inside the loop, reachable, one of whose edges avoids the push and is not allowed
+        where = None
+        for b in sorted(reach):
+            tu = body.blocks[b].term
+            if tu.k == "switch" and b in bl:
+                for v in cf.succ[b]:
+                    if v in bl and (b, v) not in allowed and not reaches_push(v):
+                        where = blk_loc(body, b)
+                        break
+            if where:
+                break
+        rep.violation("b-drops-valid:%s" % key,
+                      "bucket reader `%s` can skip a line for a reason the format does not define (branch at %s): a record that decodes, has "
+                      "two fields, matches its checksum and parses would be dropped" % (short(lf.path), where or "?"),
+                      loc=where or body.loc(), config=cfg, rule="b-complete")
+    else:
+        rep.ob(cfg, "b-complete", key, "in `%s` every line that passes decode, field count, checksum and JSON parse is collected" % short(lf.path))
